@@ -747,4 +747,273 @@ Section Proofs.
     pose proof (eget_in _ e (build_enodup kept ss) Hin) as HG.
     rewrite <- (build_edge false), <- (build_edge true). unfold ew. rewrite HG. split; reflexivity.
   Qed.
+
+  (* ---------------- C05 on the reported graph ---------------- *)
+  Lemma nget_found : forall l k v, nget k l = v -> v <> nval0 -> In (k, v) l.
+  Proof.
+    induction l as [|e r IH]; simpl; intros k v H Hne.
+    - congruence.
+    - destruct (keqb (fst e) k) eqn:E.
+      + apply keqb_spec in E. left. destruct e as [k0 v0]. simpl in *. subst. reflexivity.
+      + right. apply IH; assumption.
+  Qed.
+
+  Lemma dropped_nval0 : forall dn, node_dropped dn nval0 = true.
+  Proof. intros. reflexivity. Qed.
+
+  Lemma sumf_zero : forall (f : gsample -> Z) ss, (forall s, f s = 0) -> sumf K f ss = 0.
+  Proof. intros f ss H. induction ss as [|s r IH]; simpl; [reflexivity|]. rewrite H, IH. reflexivity. Qed.
+
+  (* an entry that is not kept gets no numbers at all *)
+  Lemma spec_nval_not_kept : forall kept ss n, keptb kept n = false -> spec_nval K keqb kept ss n = nval0.
+  Proof.
+    intros kept ss n Hk. unfold spec_nval, flat_spec, cum_spec.
+    assert (Hf : forall div, sumf K (fun s => if (keptb kept n && lastb K keqb n (keys s))%bool then pick K div s else 0) ss = 0).
+    { intros div. apply sumf_zero. intros s. rewrite Hk. reflexivity. }
+    assert (Hc : forall div, sumf K (fun s => if memK n (vis kept s) then pick K div s else 0) ss = 0).
+    { intros div. apply sumf_zero. intros s. unfold S_Graph.vis. rewrite memK_filter, Hk. reflexivity. }
+    rewrite !Hf, !Hc. reflexivity.
+  Qed.
+
+  Theorem shown_is_kept_lemma : forall kept dn ss n v,
+    In (n, v) (g_nodes (new_graph kept dn ss)) -> keptb kept n = true.
+  Proof.
+    intros kept dn ss n v Hin. destruct (graph_nodes_eq_spec_lemma kept dn ss n v Hin) as [Hv Hd].
+    destruct (keptb kept n) eqn:Ek; [reflexivity|].
+    rewrite spec_nval_not_kept in Hv by exact Ek. subst v. rewrite dropped_nval0 in Hd. discriminate.
+  Qed.
+
+  (* every entry of a trimmed graph is an entry of the untrimmed graph, with the same numbers *)
+  Theorem kept_nodes_unchanged_graph_lemma : forall kept dn ss n v,
+    In (n, v) (g_nodes (new_graph kept dn ss)) -> In (n, v) (g_nodes (new_graph None dn ss)).
+  Proof.
+    intros kept dn ss n v Hin.
+    pose proof (shown_is_kept_lemma kept dn ss n v Hin) as Hk.
+    destruct (graph_nodes_eq_spec_lemma kept dn ss n v Hin) as [Hv Hd].
+    unfold M_Graph.new_graph, select_nodes. cbn [g_nodes]. apply filter_In. split.
+    - apply nget_found.
+      + rewrite build_nval. rewrite <- spec_nval_kept with (kept := kept) by exact Hk. symmetry. exact Hv.
+      + intros H0. rewrite H0 in Hd. rewrite dropped_nval0 in Hd. discriminate.
+    - simpl. rewrite Hd. reflexivity.
+  Qed.
+
+  (* no edge of a trimmed graph refers to a removed entry *)
+  Theorem no_edge_to_removed_lemma : forall kept dn ss e,
+    In e (g_edges (new_graph kept dn ss)) ->
+    keptb kept (e_src e) = true /\ keptb kept (e_dst e) = true /\
+    (exists v, In (e_src e, v) (g_nodes (new_graph kept dn ss))) /\
+    (exists v, In (e_dst e, v) (g_nodes (new_graph kept dn ss))).
+  Proof.
+    intros kept dn ss e Hin. destruct (graph_edges_closed_lemma kept dn ss e Hin) as [[v1 H1] [v2 H2]].
+    split; [eapply shown_is_kept_lemma; exact H1|].
+    split; [eapply shown_is_kept_lemma; exact H2|].
+    split; eexists; eassumption.
+  Qed.
+
+  (* ---------------- residual marking ---------------- *)
+  Lemma eres_step_mono : forall w dw st f a b,
+    eres a b (g_edges (w_g K st)) = true -> eres a b (g_edges (w_g K (step w dw st f))) = true.
+  Proof.
+    intros w dw st f a b H. unfold M_Graph.step. destruct f as [[n|] i]; cbn [fst snd]; [|exact H].
+    set (g1 := if memK n (w_seenN K st) then w_g K st else add_cum K keqb (w_g K st) n w dw).
+    assert (HG : g_edges g1 = g_edges (w_g K st)).
+    { unfold g1. destruct (memK n (w_seenN K st)); reflexivity. }
+    destruct (w_parent K st) as [p|]; [|cbn [w_g]; rewrite HG; exact H].
+    destruct (negb (memE (n, p) (w_seenE K st)) && negb (keqb n p))%bool; cbn [w_g add_edge g_edges].
+    - rewrite eres_eadd, HG, H. destruct (keqb p a && keqb n b)%bool; reflexivity.
+    - rewrite HG. exact H.
+  Qed.
+
+  Lemma adjb_snoc_mono : forall a b l x, adjb K keqb a b l = true -> adjb K keqb a b (l ++ [x]) = true.
+  Proof. intros a b l x H. rewrite adjb_snoc, H. reflexivity. Qed.
+
+  Definition visk (kept : option (list K)) (lp : list (K * bool)) : list K := filter (keptb kept) (map fst lp).
+
+  Lemma visk_snoc : forall kept lp f,
+    visk kept (lp ++ [f]) = visk kept lp ++ (if keptb kept (fst f) then [fst f] else []).
+  Proof.
+    intros. unfold visk. rewrite map_app, filter_app. simpl. destruct (keptb kept (fst f)); reflexivity.
+  Qed.
+
+  Lemma last_full : forall kept (lp : list (K * bool)) p,
+    ends_none (map (keep_frame K keqb kept) lp) = false ->
+    last_opt (somes (map (keep_frame K keqb kept) lp)) = Some p ->
+    last_opt (map fst lp) = Some p.
+  Proof.
+    intros kept lp p He Hl. pose proof (walk_end kept lp) as HW. cbv zeta in HW.
+    unfold last_opt at 1. rewrite <- map_rev.
+    destruct (rev lp) as [|f r] eqn:ER.
+    - rewrite HW in Hl. discriminate.
+    - simpl. destruct (keptb kept (fst f)).
+      + destruct HW as [H1 _]. rewrite H1 in Hl. exact Hl.
+      + rewrite HW in He. discriminate.
+  Qed.
+
+  Definition Rinv (kept : option (list K)) (lp : list (K * bool)) (st : wst) : Prop :=
+    forall a b, keqb a b = false -> adjb K keqb a b (visk kept lp) = true ->
+                eres a b (g_edges (w_g K st)) = true \/ adjb K keqb a b (map fst lp) = true.
+
+  Lemma Rinv_step : forall kept w dw g0 lp st f,
+    Inv w dw g0 (map (keep_frame K keqb kept) lp) st -> Rinv kept lp st ->
+    Rinv kept (lp ++ [f]) (step w dw st (keep_frame K keqb kept f)).
+  Proof.
+    intros kept w dw g0 lp st f I R a b Hab Hadj.
+    rewrite visk_snoc in Hadj. rewrite map_app. simpl map.
+    pose proof (keep_frame_fst kept f) as HF.
+    destruct (keptb kept (fst f)) eqn:EK.
+    2:{ (* the frame is removed: nothing changes but the flag *)
+      rewrite app_nil_r in Hadj. destruct (R a b Hab Hadj) as [H|H].
+      - left. apply eres_step_mono. exact H.
+      - right. apply adjb_snoc_mono. exact H. }
+    set (n := fst f) in *.
+    rewrite adjb_snoc in Hadj. apply orb_prop in Hadj. destruct Hadj as [Hold|Hnew].
+    { destruct (R a b Hab Hold) as [H|H].
+      - left. apply eres_step_mono. exact H.
+      - right. apply adjb_snoc_mono. exact H. }
+    (* a is the parent, b = n *)
+    destruct I as [IN IE IP IR INO IW].
+    assert (Hs : somes (map (keep_frame K keqb kept) lp) = visk kept lp) by (apply somes_keep).
+    rewrite Hs in *.
+    destruct (last_opt (visk kept lp)) as [p|] eqn:EL; [|discriminate].
+    apply andb_prop in Hnew. destruct Hnew as [E1 E2]. apply keqb_spec in E1. apply keqb_spec in E2. subst p b.
+    destruct (adjb K keqb a n (visk kept lp)) eqn:Eseen.
+    { destruct (R a n Hab Eseen) as [H|H].
+      - left. apply eres_step_mono. exact H.
+      - right. apply adjb_snoc_mono. exact H. }
+    (* first time this sample sees a -> n: an edge is added with the current residual flag *)
+    destruct (w_res K st) eqn:ER.
+    - left. unfold M_Graph.step. destruct (keep_frame K keqb kept f) as [fo fi] eqn:EF. simpl in HF. subst fo.
+      cbn [fst snd]. rewrite IP.
+      assert (Hc : (negb (memE (n, a) (w_seenE K st)) && negb (keqb n a))%bool = true).
+      { rewrite IE, Hab, Eseen. simpl. rewrite keqb_sym, Hab. reflexivity. }
+      rewrite Hc. cbn [w_g add_edge g_edges]. rewrite eres_eadd, !keqb_refl, ER. simpl. apply orb_true_r.
+    - right. rewrite adjb_snoc.
+      rewrite (last_full kept lp a); [rewrite !keqb_refl; apply orb_true_r| |].
+      + symmetry. exact IR.
+      + rewrite Hs. exact EL.
+  Qed.
+
+  Lemma Rinv_fold : forall kept w dw g0 fs lp st,
+    Inv w dw g0 (map (keep_frame K keqb kept) lp) st -> Rinv kept lp st ->
+    Rinv kept (lp ++ fs) (fold_left (step w dw) (map (keep_frame K keqb kept) fs) st).
+  Proof.
+    intros kept w dw g0 fs. induction fs as [|f r IH]; intros lp st I R; simpl.
+    - rewrite app_nil_r. exact R.
+    - replace (lp ++ f :: r) with ((lp ++ [f]) ++ r) by (rewrite <- app_assoc; reflexivity).
+      apply IH.
+      + rewrite map_app. simpl map. apply Inv_step. exact I.
+      + eapply Rinv_step; eassumption.
+  Qed.
+
+  Lemma add_sample_eres_mono : forall kept g s a b,
+    eres a b (g_edges g) = true -> eres a b (g_edges (add_sample kept g s)) = true.
+  Proof.
+    intros kept g s a b H. unfold M_Graph.add_sample.
+    destruct ((gs_dw s =? 0) && (gs_w s =? 0))%bool; [exact H|].
+    set (fs := map (keep_frame K keqb kept) (gs_frames s)).
+    assert (HS : forall fs st, eres a b (g_edges (w_g K st)) = true ->
+                 eres a b (g_edges (w_g K (fold_left (step (gs_w s) (gs_dw s)) fs st))) = true).
+    { intros fs0. induction fs0 as [|f r IH]; intros st Hs; simpl; [exact Hs|]. apply IH. apply eres_step_mono. exact Hs. }
+    specialize (HS fs (mk_wst K g None false [] []) H).
+    set (st := fold_left _ fs _) in *.
+    destruct (w_parent K st); [destruct (negb (w_res K st))|]; exact HS.
+  Qed.
+
+  Lemma add_sample_res : forall kept g s a b, counted_b s = true -> keqb a b = false ->
+    adjb K keqb a b (vis kept s) = true ->
+    eres a b (g_edges (add_sample kept g s)) = true \/ adjb K keqb a b (keys s) = true.
+  Proof.
+    intros kept g s a b Hc Hab Hadj. unfold counted_b, counted in Hc. apply negb_true_iff in Hc.
+    unfold M_Graph.add_sample. rewrite Hc.
+    pose proof (Rinv_fold kept (gs_w s) (gs_dw s) g (gs_frames s) [] (mk_wst K g None false [] [])
+                          (Inv_init _ _ g)) as R.
+    simpl app in R.
+    assert (R0 : Rinv kept [] (mk_wst K g None false [] [])).
+    { intros x y _ H. simpl in H. discriminate. }
+    specialize (R R0 a b Hab Hadj).
+    set (st := fold_left _ _ _) in *.
+    destruct R as [R|R]; [left|right; exact R].
+    destruct (w_parent K st); [destruct (negb (w_res K st))|]; exact R.
+  Qed.
+
+  Lemma build_res : forall kept ss g a b,
+    eres a b (g_edges (fold_left (add_sample kept) ss g)) = false ->
+    eres a b (g_edges g) = false /\
+    forall s, In s ss -> counted_b s = true -> keqb a b = false ->
+              adjb K keqb a b (vis kept s) = true -> adjb K keqb a b (keys s) = true.
+  Proof.
+    intros kept ss. induction ss as [|s r IH]; intros g a b H; simpl in H.
+    - split; [exact H|]. intros s [].
+    - destruct (IH _ a b H) as [H1 H2]. split.
+      + destruct (eres a b (g_edges g)) eqn:E; [|reflexivity].
+        rewrite (add_sample_eres_mono kept g s a b E) in H1. discriminate.
+      + intros s' [Hs|Hs] Hc Hab Hadj.
+        * subst s'. destruct (add_sample_res kept g s a b Hc Hab Hadj) as [R|R]; [|exact R].
+          rewrite R in H1. discriminate.
+        * apply H2; assumption.
+  Qed.
+
+  Lemma adjb_cons_mono : forall a b x l, adjb K keqb a b l = true -> adjb K keqb a b (x :: l) = true.
+  Proof.
+    intros a b x l H. destruct l as [|y r]; [discriminate|].
+    change (adjb K keqb a b (x :: y :: r)) with ((keqb x a && keqb y b) || adjb K keqb a b (y :: r))%bool.
+    rewrite H. apply orb_true_r.
+  Qed.
+
+  Lemma adjb_filter : forall f a b l, f a = true -> f b = true ->
+    adjb K keqb a b l = true -> adjb K keqb a b (filter f l) = true.
+  Proof.
+    intros f a b l Ha Hb. induction l as [|x r IH]; intros H; [discriminate|].
+    destruct r as [|y r']; [discriminate|].
+    change (adjb K keqb a b (x :: y :: r')) with ((keqb x a && keqb y b) || adjb K keqb a b (y :: r'))%bool in H.
+    apply orb_prop in H. destruct H as [H|H].
+    - apply andb_prop in H. destruct H as [E1 E2]. apply keqb_spec in E1. apply keqb_spec in E2. subst x y.
+      simpl. rewrite Ha, Hb. simpl. rewrite !keqb_refl. reflexivity.
+    - specialize (IH H). simpl filter at 1. destruct (f x); [apply adjb_cons_mono|]; exact IH.
+  Qed.
+
+  Lemma sumf_ext_in : forall (f g : gsample -> Z) ss,
+    (forall s, In s ss -> f s = g s) -> sumf K f ss = sumf K g ss.
+  Proof.
+    intros f g ss H. induction ss as [|s r IH]; simpl; [reflexivity|].
+    rewrite H by (left; reflexivity). rewrite IH; [reflexivity|]. intros s' Hs. apply H. right. exact Hs.
+  Qed.
+
+  (* an edge between kept entries that is NOT marked residual has exactly its untrimmed weight *)
+  Theorem nonresidual_edge_unchanged_lemma : forall kept ss a b,
+    keptb kept a = true -> keptb kept b = true ->
+    eres a b (g_edges (build_graph kept ss)) = false ->
+    ew a b (g_edges (build_graph kept ss)) = ew a b (g_edges (build_graph None ss)).
+  Proof.
+    intros kept ss a b Ka Kb Hres.
+    destruct (build_res kept ss empty_graph a b Hres) as [_ HR].
+    assert (HE : forall div, edge_spec K keqb div kept ss a b = edge_spec K keqb div None ss a b).
+    { intros div. unfold edge_spec. apply sumf_ext_in. intros s Hs.
+      destruct (keqb a b) eqn:Eab; [reflexivity|]. simpl negb. simpl andb.
+      rewrite vis_none.
+      destruct (counted_b s) eqn:Ec.
+      - destruct (adjb K keqb a b (vis kept s)) eqn:E1.
+        + rewrite (HR s Hs Ec eq_refl E1). reflexivity.
+        + destruct (adjb K keqb a b (keys s)) eqn:E2; [|reflexivity].
+          unfold S_Graph.vis in E1. rewrite (adjb_filter (keptb kept) a b (keys s) Ka Kb E2) in E1. discriminate.
+      - destruct (uncounted_zero s Ec) as [H1 H2].
+        assert (pick K div s = 0) as Hp by (unfold pick; destruct div; auto).
+        rewrite Hp. destruct (adjb K keqb a b (vis kept s)), (adjb K keqb a b (keys s)); reflexivity. }
+    rewrite (surjective_pairing (ew a b (g_edges (build_graph kept ss)))).
+    rewrite (surjective_pairing (ew a b (g_edges (build_graph None ss)))).
+    pose proof (build_edge false kept ss a b) as F1. pose proof (build_edge true kept ss a b) as F2.
+    pose proof (build_edge false None ss a b) as G1. pose proof (build_edge true None ss a b) as G2.
+    cbv beta iota in F1, F2, G1, G2. rewrite F1, F2, G1, G2, !HE. reflexivity.
+  Qed.
+
+  (* an edge that exists only because removed entries were skipped is marked residual *)
+  Theorem residual_when_bypass_lemma : forall kept ss a b s,
+    In s ss -> counted K s = true -> keqb a b = false -> bypasses K keqb kept s a b = true ->
+    eres a b (g_edges (build_graph kept ss)) = true.
+  Proof.
+    intros kept ss a b s Hs Hc Hab Hb. unfold bypasses in Hb. apply andb_prop in Hb. destruct Hb as [B1 B2].
+    destruct (eres a b (g_edges (build_graph kept ss))) eqn:E; [reflexivity|].
+    destruct (build_res kept ss empty_graph a b E) as [_ HR].
+    rewrite (HR s Hs Hc Hab B1) in B2. discriminate.
+  Qed.
 End Proofs.
